@@ -189,6 +189,36 @@ theorem filter_by_name_iff_package (levels : List (Str × Int)) (orc : Oracle) (
   rw [← h1, h2]
   simp [hp]
 
+/-- `filter={...}` follows the closest-parent rule: the entry of the LONGEST key that names the module or
+one of its parent packages decides (`False` rejects, a level is a minimum severity); no such key: the
+record is accepted; a module without name consults the `None` key only.  (The `rfind` loop of
+`filter_by_level`, fuel included, against the one-line rule.) -/
+theorem filter_by_level_closest_parent (tbl : List (Option Str × Option Int)) (orc : Oracle) (no : Int) (M : Str) :
+    (∀ k v, ClosestEntry tbl M k v → accepts orc (.byLevel tbl) no (some M) = entryDecides v no) ∧
+    ((∀ k, pkgParent k M = true → tbl.lookup (some k) = none) → accepts orc (.byLevel tbl) no (some M) = true) ∧
+    accepts orc (.byLevel tbl) no none = (match tbl.lookup none with | some v => entryDecides v no | none => true) := by
+  have h := byLevelLoop_closest tbl no M (M.length + 1) M (Nat.lt_succ_self _) (pkgParent_refl M)
+    (fun k' hk' hlen => absurd (pkgParent_prefix hk').length_le (by omega))
+  refine ⟨h.1, h.2, ?_⟩
+  simp only [accepts, filterByLevel, byLevelLoop]
+  cases tbl.lookup none with
+  | none => rfl
+  | some v => cases v with
+    | none => rfl
+    | some lv => simp only [entryDecides, levelAdmits_eq]
+
+/-- the closest entry is unique: two keys that both name `M` or a parent and have equal length coincide,
+so "the longest" is well defined -/
+theorem closest_entry_unique (tbl : List (Option Str × Option Int)) (M k₁ k₂ : Str) (v₁ v₂ : Option Int)
+    (h₁ : ClosestEntry tbl M k₁ v₁) (h₂ : ClosestEntry tbl M k₂ v₂) : k₁ = k₂ ∧ v₁ = v₂ := by
+  have l1 := h₁.2.2 k₂ h₂.2.1 (by rw [h₂.1]; rfl)
+  have l2 := h₂.2.2 k₁ h₁.2.1 (by rw [h₁.1]; rfl)
+  have e : k₁ = k₂ :=
+    (List.prefix_of_prefix_length_le (pkgParent_prefix h₁.2.1) (pkgParent_prefix h₂.2.1) l2).eq_of_length (by omega)
+  subst e
+  have := h₁.1.symm.trans h₂.1
+  exact ⟨rfl, by simpa using this⟩
+
 /-- `filter=""` accepts exactly the records whose module name is not `None`; `filter=None` accepts all -/
 theorem filter_empty_and_none (levels : List (Str × Int)) (orc : Oracle) (no : Int) (M : Option Str) :
     mkFilter levels (.str []) = .ok .notNone ∧ accepts orc .notNone no M = M.isSome ∧
@@ -207,6 +237,22 @@ example :
        .log info (some ab) true, .log (.int 19) (some ab) true]
     = [.id 0, .id 1, .delivered [0, 1] 1, .ok, .delivered [] 0, .ok, .delivered [0, 1] 0, .ok,
        .delivered [1] 1, .delivered [] 0] := by decide
+
+/-- closest parent, concretely: {"": False, "a": 30, "a.b": False} – `a.bc` is governed by `a`, not `a.b` -/
+example :
+    let tbl := [(some "".toList, none), (some "a".toList, some 30), (some "a.b".toList, none)]
+    ClosestEntry tbl "a.bc".toList "a".toList (some 30) ∧
+    accepts (fun _ _ _ => true) (.byLevel tbl) 30 (some "a.bc".toList) = true ∧
+    accepts (fun _ _ _ => true) (.byLevel tbl) 30 (some "a.b.c".toList) = false ∧
+    accepts (fun _ _ _ => true) (.byLevel tbl) 30 (some "b".toList) = false := by
+  refine ⟨⟨by decide, by decide, ?_⟩, by decide, by decide, by decide⟩
+  intro k' hk' hs
+  rcases (pkgParent_iff k' _).mp hk' with rfl | rfl | ⟨t, ht⟩
+  · simp
+  · revert hs; decide
+  · have hp : (k' ++ ['.']) <+: "a.bc".toList := ⟨t, by simp [ht]⟩
+    have := dot_prefix_le_trunc hp
+    exact this
 
 example : Sim Core.init SState.init := sim_init
 
